@@ -85,6 +85,12 @@ def c15_1(ctx):
     core = [x for x in seq]
     ok = "load" in core and "reset" in core and core.index("load") < core.index("reset") and "read" in core[:core.index("load")] and "read" in core[core.index("reset"):]
     ctx.check(ok, "memo-reset-on-delivery", ctx.where(a), "add_headers does not read the old chain, load the headers, drop the memo and recompute, in that order (sequence: %s)" % core, sample={"sequence": core})
+    # what add_headers reports after a delivery is what the weight selection returns: the only thing it ever puts in the memo is
+    # None (anything else -- the chain reported before, a chain preferred by length -- overrules the selection by weight)
+    sets = [e for e in w.effects if e.kind == "setattr" and norm(e.target) == "self" and e.attr == "_longest_chain_cache" and not (isinstance(e.value, ast.Constant) and e.value.value is None)]
+    ctx.check(not sets, "delivery-reports-the-selection", ctx.where(a, sets[0].node) if sets else ctx.where(a),
+              "add_headers stores `%s` in the memo of the reported chain (under `%s`): the chain reported after a delivery is then not the one the weight selection returns -- a heavier fork that is not longer, say, is never reported" % (norm(sets[0].value)[:50] if sets else "", str(sets[0].reach)[:90] if sets else ""),
+              sample={"memo_stores_other_than_reset": 0})
     l = ctx.func(BC, "BlockChain.lock_to_index")
     wl = sym.walk(ctx, l, int_names=INTS)
     stores = [e for e in wl.effects if e.kind == "setattr" and norm(e.target) == "self" and e.attr == "_longest_chain_cache"]
